@@ -158,7 +158,9 @@ def contract(h, si, title, defaultns):
     if nsnum == 0 and h.splitname(":" + full, 14) != r:
         return f"':'+{full!r} does not come back as {r}"
     # spelling invariance
-    for variant in (title.replace(" ", "_"), "  " + title + " ", title.replace(" ", "   "), "‏" + title + "‎"):
+    for variant in (title.replace(" ", "_"), "  " + title + " ", title.replace(" ", "   "), "‏" + title + "‎",
+                    # surrounding whitespace is any whitespace: no-break, ideographic, em space, tab, line feed
+                    "\u00a0" + title + "\u3000", "\u2003\t" + title + "\n\u00a0", "\u200e\u00a0" + title + "\u3000\u200f"):
         if h.splitname(variant, defaultns) != r:
             return f"spelling {variant!r} gives {h.splitname(variant, defaultns)} != {r}"
     stripped = title.replace("_", " ").strip(" " + MARKS)
@@ -167,7 +169,7 @@ def contract(h, si, title, defaultns):
         if h._find_namespace(a)[0]:
             # the part before the colon denotes a namespace: its letter case and the spacing
             # around the colon do not matter
-            for variant in (a.upper() + ":" + b, a.lower() + " : " + b, " " + a.swapcase() + ":" + b):
+            for variant in (a.upper() + ":" + b, a.lower() + " : " + b, " " + a.swapcase() + ":" + b, a + ":\u3000" + b, a + ":\u00a0 " + b):
                 if h.splitname(variant, defaultns) != r:
                     return f"namespace case/spacing variant {variant!r} gives {h.splitname(variant, defaultns)} != {r}"
     return None
